@@ -66,12 +66,12 @@ PLAN = {
 RULES = {
     "C01": "six generators (header-state product exhaustive over pairs/triples, grammar lines, corpus mutation, raw bytes, messages::parse x every type x every length 0..130, unarmor exhaustive to length 2) each call wrapped in catch_unwind + heartbeat; a class is (build, generator, outcome kind, decode flag) plus long groups, huge payloads, UTF-8 text, wide header numbers; Miri (none cfg) in quick, Miri x3 + ASan + region coverage in thorough; every text field under the text shapes of C13 (padding mixes, one character on padding, dictionary words cut off after every character); middle fragments of 8.5 to 17 million characters (34 M thorough) in 255-fragment groups",
     "C02": "bodies x all 256 transmitted checksum values x hex styles; every single-byte corruption at every position of the corpus; perfect next fragments with wrong checksum; a class is (build, line shape, parser state, corruption position class, reference verdict); bodies of up to 131 072 bytes (1 M thorough) in channel / payload / tag block with whole-body, power-of-two-prefix and off-by-one-bit checksums; wrong-checksum openers; std build: single lines of 2^28 / 2^29 bytes (to 2^32 thorough) with pseudo-random bulk",
-    "C03": "all byte strings of length <= 2 x fill 0..5 exhaustively, length 3 over alphabet + boundary bytes, every length 5..1000 with structured contents; a class is (build, len mod 4, fill, first-invalid position class, last character class, over 512); lengths up to 524 289 characters (2.8 M and one 2^31 probe thorough); single invalid byte at power-of-two positions of strings up to 70 000; 255 .. 262 144 invalid bytes per string (2^24, 2^32 thorough) in four layouts",
+    "C03": "all byte strings of length <= 2 x fill 0..5 exhaustively, length 3 over alphabet + boundary bytes, every length 5..1000 with structured contents; a class is (build, len mod 4, fill, first-invalid position class, last character class, over 512); lengths up to 524 289 characters (2.8 M and one 2^31 probe thorough); single invalid byte at power-of-two positions of strings up to 70 000; 255 .. 262 144 invalid bytes per string (2^24, 2^32 thorough) in four layouts; concurrent first use (the first unarmor calls of every process are made by 16 threads released together)",
     "C04": "per layout branch: per-field value sweeps (exhaustive for narrow fields, bit-walks/edges/random for wide), adjacent-pair corner sweeps, joint random, repository vectors with fields overwritten, all other bits re-randomised each case, three delivery routes; a class is (build, branch, field, value stratum, route); equal-pair sweeps; joint sweeps of the 20-bit month-day-hour-minute blocks (type 5 ETA fully; UTC of types 4 / 11 a quarter quick, fully thorough) and of the 17-bit hour-minute-second blocks",
     "C05": "all compositions of payloads of length 2..9, valid messages of every type split at random points into 2..9 fragments, prior-history classes, interleaved inert lines, conversions; a class is (build, fragment count, id class, prior history, interleaved kinds, decode, payload kind); per-line presentation re-drawn (talker, VDM/VDO, delimiter, relay tag blocks incl. g:, channel, leading zeros, non-final fill, checksum spelling, line ending); wrong-checksum lines of every header shape and (none) over-capacity would-be fragments between fragments; groups of 64 KiB..256 KiB",
     "C06": "every history of length 4 (5 thorough) over a 20-symbol alphabet in lock-step with the reference automaton, plus fault-injected random histories with probes; a class is a cell (build, model state class, line class, observed outcome); decode-failing payload styles (message stage / unarmor stage), jumbo fragments up to 9 MB, 70 000..131 073 accepted unfragmented sentences inside a group, dressed lines; std build: a delivered group of more than 2^28 payload bytes (2^29, 2^30 thorough)",
-    "C07": "all 65 536 talker byte pairs, formatters, counts/numbers/ids 0..255 with leading zeros, every channel byte, every payload byte at first/middle/last, lengths 1..400, fill, tag block, delimiter, decode off/on on twin parsers; a class is (build, field class); named channel fields (87B, 2088, AIS1, frequencies ...); rotating prior histories; three follow-up lines per comparison observe the state both twins are left in",
-    "C08": "delete/duplicate/insert/replace/truncate at every position of valid sentences with a delimiter dictionary (all 256 bytes thorough), whole-field operations, boundary table, grammar near-misses, random bytes; a class is (build, operator, field hit, reference verdict); header numbers of up to 39 digits around 2^8..2^128; zero runs of 0..48 and up to a million digits before small values; 16 well-known junk prefixes",
+    "C07": "all 65 536 talker byte pairs, formatters, counts/numbers/ids 0..255 with leading zeros, every channel byte, every payload byte at first/middle/last, lengths 1..400, fill, tag block, delimiter, decode off/on on twin parsers; a class is (build, field class); named channel fields (87B, 2088, AIS1, frequencies ...); rotating prior histories; three follow-up lines per comparison observe the state both twins are left in; prior histories incl. an abandoned opener whose payload extends / is a prefix of the next opener's",
+    "C08": "delete/duplicate/insert/replace/truncate at every position of valid sentences with a delimiter dictionary (all 256 bytes thorough), whole-field operations, boundary table, grammar near-misses, random bytes; a class is (build, operator, field hit, reference verdict); header numbers of up to 39 digits around 2^8..2^128; zero runs of 0..48 and up to a million digits before small values; 16 well-known junk prefixes; valid UTF-8 text with a multi-byte character at every offset 0..300 and around powers of two up to 65 536 behind five kinds of line start",
     "C09": "all 64 type values x 4 low-bit values x (valid bodies of every layout transplanted, zero/one/random bodies of every length 1..130), and through sentences with all 64 first characters; a class is (build, type, body class, outcome); mixed decode-flag histories, '1 of 0' line after every kind of group, payloads up to 350 000 characters (1.4 M thorough) under every type value; replayed deliveries (pools of valid / unsupported / undecodable payloads delivered repeatedly on one parser)",
     "C10": "coordinates: every raw value of every 18/17-bit field, stratified 28/27-bit sweeps in quick and every raw value in thorough, surrounding bits re-randomised every 256 values; speeds/courses/draught: every raw value; a class is (build, type, field, stratum)",
     "C11": "per optional field: every value for widths <= 12, sentinel +-8, extremes, the other resolution's sentinel and random values for wider ones, other optional fields at/not at their sentinel; a class is (build, branch, field, value class) and (branch, field, combination of other sentinels); calendar corners (full cross product of notable date/time values), epoch dates, special sender numbers",
@@ -83,7 +83,7 @@ RULES = {
     "C17": "every history of length 4 (5 thorough) over the 20-symbol alphabet and random histories: each inert line removed in turn, all other outcomes and a probe suite compared; interleaved parser instances vs isolated runs; a class is (build, state class at removal, inert kind, position); runs of up to 131 073 inert lines (rejected or accepted unfragmented) inside a group; rejected fragments of up to 16 MiB; one constructor per comparison",
     "C18": "identical seeded call sequence (lines on long-lived parsers, messages, unarmor, capacity edges) logged in std, alloc and none builds and diffed offline; a class is (capacity class, std outcome kind, none outcome kind); every text field within capacity under the text shapes of C13",
     "C19": "all 64 armoring characters as first payload character x 4 sentence shapes x decode off/on x tag/delimiter variants; a class is (build, character, shape); decodable groups",
-    "C20": "streams mixing valid sentences of every type, groups, bad checksums, malformed lines, invalid UTF-8, NULs, CRLF, long lines, every single byte, failed deliveries followed by the repeated final fragment, with chunked writes; real binary's stdout/stderr records compared with the library's per-line outcome; a class is (binary, stream class, line classes); stdin from pipe and file, lines of 2^p-1/2^p/2^p+1 bytes up to 2^26 (2^28 thorough), stop/continue (SIGSTOP/SIGCONT) injection while writing multi-megabyte records to slow pipes, independence pairs, strace order sample, valgrind (thorough)",
+    "C20": "streams mixing valid sentences of every type, groups, bad checksums, malformed lines, invalid UTF-8, NULs, CRLF, long lines, every single byte, failed deliveries followed by the repeated final fragment, with chunked writes; real binary's stdout/stderr records compared with the library's per-line outcome; a class is (binary, stream class, line classes); stdin from pipe and file, lines of 2^p-1/2^p/2^p+1 bytes up to 2^26 (2^28 thorough), stop/continue (SIGSTOP/SIGCONT) injection while writing multi-megabyte records to slow pipes, independence pairs, strace order sample, valgrind (thorough); rejected lines with a multi-byte character or invalid byte straddling power-of-two offsets 64 .. 65 536",
 }
 
 _COMMON = " Common to all harness checks: parsers obtained alternately with AisParser::new() and AisParser::default(); every input slice placed at a rotating offset 0..7 from an aligned address with poisoned neighbours."
